@@ -1,0 +1,22 @@
+//go:build verif
+
+package x509
+
+// Verification hooks for chain verification (add-only, build tag verif).
+
+// VerifCheckChainForKeyUsage exposes checkChainForKeyUsage.
+func VerifCheckChainForKeyUsage(chain []*Certificate, keyUsages []ExtKeyUsage) bool {
+	return checkChainForKeyUsage(chain, keyUsages)
+}
+
+// VerifIsValid exposes isValid; the result is nil, or the InvalidReason of the CertificateInvalidError.
+func VerifIsValid(c *Certificate, certType CertificateType, currentChain CertificateChain) (ok bool, reason InvalidReason) {
+	err := c.isValid(certType, currentChain)
+	if err == nil {
+		return true, 0
+	}
+	if e, is := err.(CertificateInvalidError); is {
+		return false, e.Reason
+	}
+	return false, -1
+}
